@@ -230,4 +230,46 @@ example : ZeroOK [("m", .map []), ("n", .atom (.int 0))] := by
   · split at h <;> cases h
 end
 
+/-- two lists with the same members are the same set to every condition function: an element written twice,
+    or the elements written in another order, change no answer (argument side) -/
+theorem same_members_same_answer_arg (f : CondFn) (x y y' : List Atom) (h : ∀ e, e ∈ y ↔ e ∈ y') :
+    evalCond f (.set x) (.set y') = evalCond f (.set x) (.set y) := by
+  have hall : ∀ p : Atom → Bool, y'.all p = y.all p := by
+    intro p
+    rw [Bool.eq_iff_iff]
+    simp only [List.all_eq_true]
+    exact ⟨fun hh e he => hh e ((h e).mp he), fun hh e he => hh e ((h e).mpr he)⟩
+  have hmem : ∀ e, decide (e ∈ y') = decide (e ∈ y) := by
+    intro e; rw [Bool.eq_iff_iff]; simp [h e]
+  unfold evalCond
+  simp only [Value.kindTag, ne_eq, not_true_eq_false, ↓reduceIte]
+  cases f <;> simp only [valueEqB, hall, hmem]
+
+/-- and on the column's side -/
+theorem same_members_same_answer_col (f : CondFn) (x x' y : List Atom) (h : ∀ e, e ∈ x ↔ e ∈ x') :
+    evalCond f (.set x') (.set y) = evalCond f (.set x) (.set y) := by
+  have hall : ∀ p : Atom → Bool, x'.all p = x.all p := by
+    intro p
+    rw [Bool.eq_iff_iff]
+    simp only [List.all_eq_true]
+    exact ⟨fun hh e he => hh e ((h e).mp he), fun hh e he => hh e ((h e).mpr he)⟩
+  have hmem : ∀ e, decide (e ∈ x') = decide (e ∈ x) := by
+    intro e; rw [Bool.eq_iff_iff]; simp [h e]
+  have hnmem : ∀ e, decide (¬ e ∈ x') = decide (¬ e ∈ x) := by
+    intro e; rw [Bool.eq_iff_iff]; simp [h e]
+  unfold evalCond
+  simp only [Value.kindTag, ne_eq, not_true_eq_false, ↓reduceIte]
+  cases f <;> simp only [valueEqB, hall, hmem, hnmem]
+
+theorem repeated_element_same_answer (f : CondFn) (x y : List Atom) (e : Atom) (he : e ∈ y) :
+    evalCond f (.set x) (.set (y ++ [e])) = evalCond f (.set x) (.set y) :=
+  same_members_same_answer_arg f x y (y ++ [e]) (by intro a; simp; intro h; subst h; exact he)
+
+theorem element_order_irrelevant (f : CondFn) (x y y' : List Atom) (h : y.Perm y') :
+    evalCond f (.set x) (.set y') = evalCond f (.set x) (.set y) :=
+  same_members_same_answer_arg f x y y' (fun _ => h.mem_iff)
+
+example : (evalCond .eq (.set [.str "a"]) (.set [.str "a", .str "a"])).toOption = some true := by decide
+example : (evalCond .includes (.set [.str "a", .str "b"]) (.set [.str "b", .str "a", .str "b"])).toOption = some true := by decide
+
 end Ovsdb.C08
